@@ -12,6 +12,7 @@ mod client;
 mod driver;
 mod framework;
 mod monitors;
+mod netsrv;
 mod props;
 mod refmodel;
 mod respgen;
